@@ -31,9 +31,10 @@ from harness.core import Ctx, Driver, VERIF
 
 PROPS = 'XsVerif.Props.C03'
 AUDIT = 'XsVerif.Audit.C03'
-LEAN_TARGETS = ['XsVerif.Props.C03', 'XsVerif.Props.C03Types', 'XsVerif.Props.C03Deriv', 'drv_c03']
+LEAN_TARGETS = ['XsVerif.Props.C03', 'XsVerif.Props.C03Types', 'XsVerif.Props.C03Deriv', 'XsVerif.Props.C03Fixed', 'drv_c03']
 LEANCHECK = ['XsVerif.Model.Attributes', 'XsVerif.Lemmas.Attributes', 'XsVerif.Model.AttrTypes', 'XsVerif.Model.AttrDeriv',
-             'XsVerif.Props.C03', 'XsVerif.Props.C03Types', 'XsVerif.Props.C03Deriv']
+             'XsVerif.Model.AttrFixed', 'XsVerif.Lemmas.AttrFixed',
+             'XsVerif.Props.C03', 'XsVerif.Props.C03Types', 'XsVerif.Props.C03Deriv', 'XsVerif.Props.C03Fixed']
 RULE = ('a case is one (XSD version, declaration set [plain type, or the content of an <extension>/<restriction> of a '
         'generated base type], subset of the 8-name pool with one catalogue value per present attribute); each case is '
         'decoded under the four (use_defaults, fill_missing) settings; non-trivial = at least one of: an error is '
@@ -52,7 +53,10 @@ TRUSTED = ['the simple types are a concrete Lean model for the 9 catalogue types
            'set, processContents) and with the group the Lean port of XsdAttributeGroup._parse computes from the parts',
            'the constraint of a wildcard of the AST is translated to the model notation by `wc_of` (checked against '
            'the built wildcard of every attribute-group definition)']
-ASSUMPTIONS = ['value constraints of the schema are valid for their type (hypothesis WF of the theorems; a schema '
+ASSUMPTIONS = ['the variant of the fixed-value test (before / after the repair of C03-F3: xs:QName compared as text / '
+               'by value, injected QName literals validated / decoded in skip mode) is DETECTED on the tree under test '
+               'by replaying the C03-F3 witness (detect_variant) and passed to the driver; both variants are proved',
+               'value constraints of the schema are valid for their type (hypothesis WF of the theorems; a schema '
                'violating it is refused at build time)',
                'no attribute of the group is declared in the xsi namespace',
                'the name pool does not use ##defined in attribute wildcards (modelled, parameter of the theorems, '
@@ -354,7 +358,7 @@ def xsd_text(s: dict) -> str:
     ga = ''
     if s['ga']:
         ga = f' {s["ga"][0]}="{s["ga"][1]}"'
-    out = [f'<xs:schema xmlns:xs="{XSD}" targetNamespace="{T}" xmlns:t="{T}" xmlns:f="{F}" xmlns:u="{U}" '
+    out = [f'<xs:schema xmlns:xs="{XSD}" targetNamespace="{T}" xmlns:t="{T}" xmlns:tt="{T}" xmlns:f="{F}" xmlns:u="{U}" '
            f'attributeFormDefault="{s["afd"]}">',
            f'<xs:import namespace="{F}" schemaLocation="f.xsd"/>',
            '<xs:simpleType name="small"><xs:restriction base="xs:int"><xs:maxInclusive value="5"/>'
@@ -542,7 +546,8 @@ def spec_eval(it: dict, attrs: list, ud: bool, fm: bool, qname_lexical: bool = F
             absent_none.add(n)
     may_none = (set(it['prohibited']) - present - set(uses)) if fm else set()
     return {'ok': ok, 'out': out, 'skipped': skipped, 'absent': absent, 'none': absent_none,
-            'may_none': may_none, 'present': present}
+            'may_none': may_none, 'present': present,
+            'qnames': {n for n, u in uses.items() if u['ty'] == TY_QNAME}}
 
 
 # ---------------------------------------------------------------- real code: build, introspect, run
@@ -808,6 +813,28 @@ NSMAP['tt'] = T
 CTX = sorted([p, ns] for p, ns in NSMAP_DECODE.items())
 
 
+VARIANT: dict = {}
+
+
+def detect_variant() -> bool:
+    """Which variant of the fixed-value test has the tree under test?  The C03-F3 witness is replayed: with
+    the repair (notes/fixes/C03-qname-fixed-value-space.patch) the same QName written with another prefix is
+    accepted and the same text with the prefix bound elsewhere is rejected -> byValue.  Passed to the driver
+    (`semCatV byValue`, `errorsX (qStrict byValue)`); anything else is the variant before the repair."""
+    if 'byValue' not in VARIANT:
+        import xmlschema
+        sc = xmlschema.XMLSchema10(
+            f'<xs:schema xmlns:xs="{XSD}" targetNamespace="{T}" xmlns:t="{T}"><xs:element name="e"><xs:complexType>'
+            '<xs:attribute name="q" type="xs:QName" fixed="t:x"/></xs:complexType></xs:element></xs:schema>')
+        VARIANT['byValue'] = bool(sc.is_valid(f'<p:e xmlns:p="{T}" q="p:x"/>') and
+                                  not sc.is_valid(f'<p:e xmlns:p="{T}" xmlns:t="urn:other" q="t:x"/>'))
+    return VARIANT['byValue']
+
+
+def schema_ctx(schema: Any) -> list:
+    return sorted([p, ns] for p, ns in schema.namespaces.items())
+
+
 def canon_value(v: Any) -> list:
     """python value handed to the converter -> the canonical form of the driver (`dvJson`)"""
     if v is None:
@@ -1012,7 +1039,8 @@ def run_set(ctx: Ctx, drv: Optional[Driver], s: dict, v11: bool, tmp: Path, subs
     answers = None
     if drv is not None:
         req = {'decls': g['decls'], 'any': g['any'], 'globals': g['globals'], 'loaded': g['loaded'],
-               'cases': cases, 'opts': [list(o) for o in OPTS], 'ctx': CTX}
+               'cases': cases, 'opts': [list(o) for o in OPTS], 'ctx': CTX, 'byValue': detect_variant(),
+               'sctx': schema_ctx(b.schema)}
         answers = drv.query([req])[0]
         if 'err' in answers:
             ctx.mismatch('driver error', case0, None, answers)
@@ -1086,7 +1114,9 @@ def judge(sp: dict, real: dict) -> list[str]:
     for n, v in sp['absent'].items():
         if n not in got:
             problems.append('absent attribute %s with a fixed/default value is not reported' % (n,))
-        elif not same_value(got[n], v):
+        elif not same_value(got[n], v) and not (n in sp['qnames'] and isinstance(got[n], str) and isinstance(v, str)
+                                                 and coll(got[n]) == coll(v)):
+            # (an absent xs:QName is reported as text: the literal of the schema, collapsed or not)
             problems.append('absent attribute %s reported as %r, expected %r' % (n, got[n], v))
     for n in sp['none']:
         if n not in got or got[n] is not None:
@@ -1113,7 +1143,7 @@ def agrees(m: dict, real: dict) -> bool:
 
 
 # ---------------------------------------------------------------- the catalogue types against the real types
-TYPES_XSD = f'''<xs:schema xmlns:xs="{XSD}" targetNamespace="{T}" xmlns:t="{T}">
+TYPES_XSD = f'''<xs:schema xmlns:xs="{XSD}" targetNamespace="{T}" xmlns:t="{T}" xmlns:tt="{T}" xmlns:f="{F}" xmlns:p="{U}">
 <xs:simpleType name="small"><xs:restriction base="xs:int"><xs:maxInclusive value="5"/></xs:restriction></xs:simpleType>
 <xs:simpleType name="ints"><xs:list itemType="xs:int"/></xs:simpleType>
 %s
@@ -1137,8 +1167,8 @@ def gen_lex(rng, ty: int) -> str:
 def run_types(ctx: Ctx, drv: Optional[Driver]) -> None:
     """Model/AttrTypes.lean against the real simple types: for every catalogue type, generated lexical forms:
     (a) lax decode of <e v="lex"/> reports no error  <->  validLex, and the decoded value  <->  decodedVal;
-    (b) `type.text_decode(a) == type.text_decode(b)` (the fixed-value test of XsdAttribute.raw_decode)  <->
-        Sem.valueEq;  (c) the hand-written catalogue table (independent reading) agrees with the real types."""
+    (b) decoding <e v="a"/> against the declaration with fixed="b" reports no fixed-value error  <->  `declErrsX`
+        (the variant of the tree under test, see detect_variant);  (c) the hand-written catalogue table (independent reading) agrees with the real types."""
     import xmlschema
     elems = ''.join(f'<xs:element name="e{k}"><xs:complexType><xs:attribute name="v" type="{name}"/>'
                     f'</xs:complexType></xs:element>' for k, (name, _) in enumerate(CATALOGUE))
@@ -1162,15 +1192,24 @@ def run_types(ctx: Ctx, drv: Optional[Driver]) -> None:
                         ctx.failure('the hand-written catalogue (independent reading) disagrees with the real type',
                                     {'v': ver, 'type': name, 'lex': lex}, {'catalogue': [ok, repr(pv)],
                                                                           'real': [not errs, repr(val)]})
+            attr = schema.elements[f'e{ty}'].type.attributes['v']
             for _ in range(ctx.pick(150, 1200)):
                 a, bb = ctx.rng.choice(lexs), ctx.rng.choice(lexs)
                 if ctx.rng.random() < 0.3:
                     bb = ctx.rng.choice(['', ' ', '\t']) + a + ctx.rng.choice(['', ' '])
                 pairs.append([ty, a, bb])
-                real_pairs.append(bool(xsd_type.text_decode(a) == xsd_type.text_decode(bb)))
+                # the fixed-value clause of XsdAttribute.raw_decode itself: the declaration gets fixed=bb
+                attr.fixed = bb
+                try:
+                    el = ET.Element('{%s}e%d' % (T, ty), {'v': a})
+                    _, errs = schema.decode(el, validation='lax', namespaces=NSMAP_DECODE)
+                finally:
+                    attr.fixed = None
+                real_pairs.append(not any((e.reason or '').startswith("attribute 'v' has a fixed value") for e in errs))
         if drv is None:
             continue
-        ans = drv.query([{'op': 'types', 'ctx': CTX, 'items': items, 'pairs': pairs}])[0]
+        ans = drv.query([{'op': 'types', 'ctx': CTX, 'byValue': detect_variant(), 'sctx': schema_ctx(schema),
+                          'items': items, 'pairs': pairs}])[0]
         if 'err' in ans:
             ctx.mismatch('driver error (types)', {'v': ver}, None, ans)
             continue
@@ -1185,7 +1224,7 @@ def run_types(ctx: Ctx, drv: Optional[Driver]) -> None:
             ctx.traces += 1
             ctx.count('types:eq' if req else 'types:neq')
             if req != meq:
-                ctx.mismatch('catalogue type: fixed-value test (text_decode equality)',
+                ctx.mismatch('catalogue type: fixed-value test of XsdAttribute.raw_decode',
                              {'v': ver, 'type': CATALOGUE[ty][0], 'a': a, 'b': bb}, req, meq)
 
 
@@ -1318,6 +1357,16 @@ def witnesses(ctx: Ctx) -> None:
                 ctx.failure('the fixed value of an xs:QName attribute is not compared in the value space',
                             {'witness': 'qname-fixed', 'v': v}, {'same value rejected': rejects,
                                                                  'different value accepted': admits_})
+        # C03-F5: an ABSENT attribute whose fixed / default literal is a QName is validated in the namespace
+        # context of the instance (Props.C03Fixed: the last two examples)
+        ctx.case({'witness': 'qname-absent', 'v': v}, True, tag='witness')
+        bad = [x for x in (f'<p:e xmlns:p="{T}"/>', f'<p:e xmlns:p="{T}" xmlns:t="urn:other"/>') if errs(sc, x)]
+        if bad:
+            if finding_status().get('C03-F5') == 'known' and bad == [f'<p:e xmlns:p="{T}"/>'] and not detect_variant():
+                ctx.known_hit('C03-F5')
+            else:
+                ctx.failure('an element WITHOUT the attribute is invalid because of the fixed value of the absent '
+                            'xs:QName attribute', {'witness': 'qname-absent', 'v': v}, {'rejected': bad})
         # C03-F4: the wildcard of a shared attribute group widened by an extension
         sc = cls(head + f'<xs:attributeGroup name="AG"><xs:anyAttribute namespace="{U}" processContents="skip"/>'
                  f'</xs:attributeGroup><xs:complexType name="B"><xs:anyAttribute namespace="{F}" processContents="skip"/>'
@@ -1356,7 +1405,7 @@ def run(ctx: Ctx, driver_ok: bool) -> None:
         if not any(k['id'] == e['id'] for k in ctx.known):
             ctx.known.append(e)          # core only reads /verif/known_findings.json (integrator merges later)
     drv = Driver('drv_c03') if driver_ok else None
-    for extra in ('XsVerif.Props.C03Types', 'XsVerif.Props.C03Deriv'):
+    for extra in ('XsVerif.Props.C03Types', 'XsVerif.Props.C03Deriv', 'XsVerif.Props.C03Fixed'):
         ctx.lean_grep(extra)
     run_types(ctx, drv)
     run_build_extras(ctx, drv)
